@@ -124,17 +124,17 @@ type State struct {
 }
 
 type TraceLine struct {
-	Tr   string `json:"tr"`
-	I    int    `json:"i"`
-	Kind string `json:"kind"`
-	TP   int64  `json:"tp"`
-	Ska  int64  `json:"ska"`
-	Skb  int64  `json:"skb"`
+	Tr   string          `json:"tr"`
+	I    int             `json:"i"`
+	Kind string          `json:"kind"`
+	TP   int64           `json:"tp"`
+	Ska  int64           `json:"ska"`
+	Skb  int64           `json:"skb"`
 	A    json.RawMessage `json:"a"` // the schedule's action, verbatim
-	Res  string `json:"res"`
-	Err  string `json:"err,omitempty"` // diagnostic only, never asserted
-	St   State  `json:"st"`
-	Det  *Det   `json:"det,omitempty"` // C45: byte-level observations compared between two processes
+	Res  string          `json:"res"`
+	Err  string          `json:"err,omitempty"` // diagnostic only, never asserted
+	St   State           `json:"st"`
+	Det  *Det            `json:"det,omitempty"` // C45: byte-level observations compared between two processes
 }
 
 // Det holds observations below the abstraction: application hashes, exported genesis, raw query order.
@@ -731,6 +731,9 @@ func (w *World) noteV2(ctx sdk.Context, ev, srcID, dstID string, seq uint64, pl 
 			a = "SENTINEL"
 		default:
 			a = "?"
+			if rest, ok := strings.CutPrefix(string(ack), "verif-ack-"); ok {
+				a = rest // an application acknowledgement written by the harness's own WriteAck action
+			}
 		}
 	}
 	pend := w.pending[me]
